@@ -148,6 +148,30 @@ def generate(rng, n, tier):
             if "frame" in opts:
                 for fr in (["rows", ["preceding", 2], ["current"]], ["range", ["preceding", None], None], ["rows", ["preceding", 0], ["following", 0]]):
                     yield {"cls": name, "src": src, "clauses": cl + ["frame"], "frame": fr}
+    # constant arguments, falsy ones included (0, 0.0, '', False, Decimal zero): every argument given is rendered, in place
+    CONSTS = ["0", "0.0", "''", "False", "D('0')", "1", "'x'", "None"]
+    for name, src, c in cat:
+        if src is None or name in SPECIAL_ARGS:
+            continue
+        args = ctor_args(name, c)
+        sig = inspect.signature(c.__init__)
+        variadic = any(p.kind == p.VAR_POSITIONAL for p in sig.parameters.values())
+        # optional positional parameters (offset / default of LAG, …) are exercised as well
+        optional = [pn for pn, p in list(sig.parameters.items())[1:] if p.kind == p.POSITIONAL_OR_KEYWORD and
+                    p.default is not inspect.Parameter.empty and pn != "alias"]
+        room = 2 if variadic else len(optional)
+        if len(args) + room < 2:
+            continue
+        for k in range(3):
+            given = list(args)
+            extra = [rng.choice(CONSTS) for _ in range(room)]
+            if variadic:
+                given = given[:1] + extra + given[1:2] if rng.random() < 0.5 else given[:1] + extra
+            else:
+                given = given + extra[:rng.randint(1, room)] if room else given
+                if not room:
+                    given = given[:1] + [rng.choice(CONSTS) for _ in given[1:]]
+            yield {"cls": name, "src": "%s(%s)" % (name, ", ".join(given)), "clauses": [], "given_args": given}
     # nested / in-statement uses
     good = [(nm, s, c) for nm, s, c in cat if s is not None]
     for _ in range(n):
@@ -208,7 +232,12 @@ def reference(obj, case):
     from pypika import functions as fn
     kw = {"quote_char": '"'}
     argkw = dict(kw, with_alias=False, subquery=True)
-    args = ",".join(a.get_sql(**argkw) if hasattr(a, "get_sql") else str(a) for a in obj.args)
+    if case.get("given_args"):
+        # from the arguments as GIVEN (a constant is the literal of its value), not from what the constructor kept
+        args = ",".join(ns.ev(a if a.startswith("F(") else "VW(%s)" % a if a != "None" else "NullValue()").get_sql(**argkw)
+                        for a in case["given_args"])
+    else:
+        args = ",".join(a.get_sql(**argkw) if hasattr(a, "get_sql") else str(a) for a in obj.args)
     if isinstance(obj, fn.CurTimestamp):
         core = obj.name
     else:
@@ -254,10 +283,14 @@ def examine(case):
         pass
     try:
         obj = ns.ev(src, {"Enc": Enc})
+    except TypeError:
+        if case.get("given_args"):
+            return res          # the constructor does not take that many positional arguments
+        raise
     except AttributeError as e:
         # rows()/range() twice etc. are not generated; any other construction failure is a harness problem
         raise
-    res.key = struct_hash([case["cls"], cl, case.get("frame") if "frame" in cl else None, case.get("nest"), case.get("stmt")])
+    res.key = struct_hash([case["cls"], cl, case.get("frame") if "frame" in cl else None, case.get("nest"), case.get("stmt"), case.get("given_args")])
     res.nontrivial = bool(obj.args) or bool(cl)
     res.tags = ["cls=" + case["cls"].split(".")[0], "nclauses=%d" % len(cl)] + ["has=" + c for c in cl]
     kw = {"quote_char": '"'}
